@@ -1226,28 +1226,53 @@ fn evaluate_scalar_func(
 
             // Check for optional second argument (decimal places)
             if evaluated_args.len() >= 2 {
+                // decimal places are evaluated per row (NULL places -> NULL)
                 let decimals_arr = &evaluated_args[1];
-                // Get the decimal places value (must be an integer)
-                let decimals = if let Some(int_arr) =
-                    decimals_arr.as_any().downcast_ref::<Int64Array>()
-                {
-                    if int_arr.len() > 0 && !int_arr.is_null(0) {
-                        int_arr.value(0) as i32
+                let dec_nulls = decimals_arr.logical_nulls();
+                let dec_at = |i: usize| -> Option<i32> {
+                    if dec_nulls.as_ref().is_some_and(|n| n.is_null(i)) {
+                        None
                     } else {
-                        0
+                        Some(get_int_value(decimals_arr, i).unwrap_or(0) as i32)
                     }
-                } else if let Some(int_arr) = decimals_arr.as_any().downcast_ref::<Int32Array>() {
-                    if int_arr.len() > 0 && !int_arr.is_null(0) {
-                        int_arr.value(0)
-                    } else {
-                        0
-                    }
-                } else {
-                    0
                 };
-
-                let factor = 10f64.powi(decimals);
-                apply_math_unary_preserve_int(arr, move |x| (x * factor).round() / factor, |x| x)
+                if let Some(float_arr) = arr.as_any().downcast_ref::<Float64Array>() {
+                    let result: Float64Array = (0..float_arr.len())
+                        .map(|i| {
+                            if float_arr.is_null(i) {
+                                return None;
+                            }
+                            let factor = 10f64.powi(dec_at(i)?);
+                            Some((float_arr.value(i) * factor).round() / factor)
+                        })
+                        .collect();
+                    return Ok(Arc::new(result));
+                }
+                if let Some(int_arr) = arr.as_any().downcast_ref::<Int64Array>() {
+                    let result: Int64Array = (0..int_arr.len())
+                        .map(|i| {
+                            if int_arr.is_null(i) {
+                                return None;
+                            }
+                            dec_at(i).map(|_| int_arr.value(i))
+                        })
+                        .collect();
+                    return Ok(Arc::new(result));
+                }
+                if let Some(int_arr) = arr.as_any().downcast_ref::<Int32Array>() {
+                    let result: Int32Array = (0..int_arr.len())
+                        .map(|i| {
+                            if int_arr.is_null(i) {
+                                return None;
+                            }
+                            dec_at(i).map(|_| int_arr.value(i))
+                        })
+                        .collect();
+                    return Ok(Arc::new(result));
+                }
+                Err(QueryError::Type(
+                    "Math function requires numeric argument".into(),
+                ))
             } else {
                 // No decimal places specified, round to integer
                 apply_math_unary_preserve_int(arr, |x| x.round(), |x| x)
@@ -1668,22 +1693,22 @@ fn evaluate_scalar_func(
                 .ok_or_else(|| QueryError::Type("LPAD requires string argument".into()))?;
             let len_arr = &evaluated_args[1];
             let len_nulls = len_arr.logical_nulls();
-            let pad_char = if evaluated_args.len() > 2 {
-                if let Some(pad_arr) = evaluated_args[2].as_any().downcast_ref::<StringArray>() {
-                    pad_arr.value(0).to_string()
-                } else {
-                    " ".to_string()
-                }
-            } else {
-                " ".to_string()
-            };
+            // the pad string is evaluated per row (NULL pad -> NULL)
+            let pad_arr = evaluated_args
+                .get(2)
+                .and_then(|a| a.as_any().downcast_ref::<StringArray>());
+            let pad_nulls = evaluated_args.get(2).and_then(|a| a.logical_nulls());
 
             let result: StringArray = (0..str_arr.len())
                 .map(|i| {
-                    if str_arr.is_null(i) || len_nulls.as_ref().is_some_and(|n| n.is_null(i)) {
+                    if str_arr.is_null(i)
+                        || len_nulls.as_ref().is_some_and(|n| n.is_null(i))
+                        || pad_nulls.as_ref().is_some_and(|n| n.is_null(i))
+                    {
                         None
                     } else {
                         let s = str_arr.value(i);
+                        let pad_char = pad_arr.map(|p| p.value(i)).unwrap_or(" ");
                         let target_len = get_int_value(len_arr, i).unwrap_or(0) as usize;
                         let current_len = s.chars().count();
                         if current_len >= target_len {
@@ -1712,22 +1737,22 @@ fn evaluate_scalar_func(
                 .ok_or_else(|| QueryError::Type("RPAD requires string argument".into()))?;
             let len_arr = &evaluated_args[1];
             let len_nulls = len_arr.logical_nulls();
-            let pad_char = if evaluated_args.len() > 2 {
-                if let Some(pad_arr) = evaluated_args[2].as_any().downcast_ref::<StringArray>() {
-                    pad_arr.value(0).to_string()
-                } else {
-                    " ".to_string()
-                }
-            } else {
-                " ".to_string()
-            };
+            // the pad string is evaluated per row (NULL pad -> NULL)
+            let pad_arr = evaluated_args
+                .get(2)
+                .and_then(|a| a.as_any().downcast_ref::<StringArray>());
+            let pad_nulls = evaluated_args.get(2).and_then(|a| a.logical_nulls());
 
             let result: StringArray = (0..str_arr.len())
                 .map(|i| {
-                    if str_arr.is_null(i) || len_nulls.as_ref().is_some_and(|n| n.is_null(i)) {
+                    if str_arr.is_null(i)
+                        || len_nulls.as_ref().is_some_and(|n| n.is_null(i))
+                        || pad_nulls.as_ref().is_some_and(|n| n.is_null(i))
+                    {
                         None
                     } else {
                         let s = str_arr.value(i);
+                        let pad_char = pad_arr.map(|p| p.value(i)).unwrap_or(" ");
                         let target_len = get_int_value(len_arr, i).unwrap_or(0) as usize;
                         let current_len = s.chars().count();
                         if current_len >= target_len {
@@ -2709,17 +2734,21 @@ fn evaluate_scalar_func(
                 .as_any()
                 .downcast_ref::<StringArray>()
                 .ok_or_else(|| QueryError::Type("REGEXP_EXTRACT requires string pattern".into()))?;
-            let group_idx = if evaluated_args.len() > 2 {
-                get_int_value(&evaluated_args[2], 0).unwrap_or(0) as usize
-            } else {
-                0
-            };
+            // the group index is evaluated per row (NULL group -> NULL)
+            let group_arr = evaluated_args.get(2);
+            let group_nulls = group_arr.and_then(|a| a.logical_nulls());
 
             let result: StringArray = (0..str_arr.len())
                 .map(|i| {
-                    if str_arr.is_null(i) || pattern_arr.is_null(i) {
+                    if str_arr.is_null(i)
+                        || pattern_arr.is_null(i)
+                        || group_nulls.as_ref().is_some_and(|n| n.is_null(i))
+                    {
                         None
                     } else {
+                        let group_idx = group_arr
+                            .and_then(|a| get_int_value(a, i))
+                            .unwrap_or(0) as usize;
                         let s = str_arr.value(i);
                         let pattern = pattern_arr.value(i);
                         match regex::Regex::new(pattern) {
@@ -3384,11 +3413,22 @@ fn evaluate_scalar_func(
                 .as_any()
                 .downcast_ref::<StringArray>()
                 .ok_or_else(|| QueryError::Type("FROM_BASE requires string argument".into()))?;
-            let radix = get_int_value(&evaluated_args[1], 0).unwrap_or(10) as u32;
+            // the radix is evaluated per row (NULL radix -> NULL)
+            let radix_arr = &evaluated_args[1];
+            let radix_nulls = radix_arr.logical_nulls();
 
-            let result: Int64Array = str_arr
-                .iter()
-                .map(|opt| opt.and_then(|s| i64::from_str_radix(s, radix).ok()))
+            let result: Int64Array = (0..str_arr.len())
+                .map(|i| {
+                    if str_arr.is_null(i) || radix_nulls.as_ref().is_some_and(|n| n.is_null(i)) {
+                        return None;
+                    }
+                    let radix = get_int_value(radix_arr, i).unwrap_or(10);
+                    // from_str_radix panics outside 2..=36
+                    if !(2..=36).contains(&radix) {
+                        return None;
+                    }
+                    i64::from_str_radix(str_arr.value(i), radix as u32).ok()
+                })
                 .collect();
             Ok(Arc::new(result))
         }
@@ -3403,18 +3443,21 @@ fn evaluate_scalar_func(
                 .as_any()
                 .downcast_ref::<Int64Array>()
                 .ok_or_else(|| QueryError::Type("TO_BASE requires integer argument".into()))?;
-            let radix = get_int_value(&evaluated_args[1], 0).unwrap_or(10) as u32;
+            // the radix is evaluated per row (NULL radix -> NULL)
+            let radix_arr = &evaluated_args[1];
+            let radix_nulls = radix_arr.logical_nulls();
 
-            let result: StringArray = int_arr
-                .iter()
-                .map(|opt| {
-                    opt.map(|v| {
-                        match radix {
-                            2 => format!("{:b}", v),
-                            8 => format!("{:o}", v),
-                            16 => format!("{:x}", v),
-                            _ => format!("{}", v), // Only support common bases
-                        }
+            let result: StringArray = (0..int_arr.len())
+                .map(|i| {
+                    if int_arr.is_null(i) || radix_nulls.as_ref().is_some_and(|n| n.is_null(i)) {
+                        return None;
+                    }
+                    let v = int_arr.value(i);
+                    Some(match get_int_value(radix_arr, i).unwrap_or(10) {
+                        2 => format!("{:b}", v),
+                        8 => format!("{:o}", v),
+                        16 => format!("{:x}", v),
+                        _ => format!("{}", v), // Only support common bases
                     })
                 })
                 .collect();
@@ -3430,14 +3473,18 @@ fn evaluate_scalar_func(
             let operand = get_float_array(&evaluated_args[0])?;
             let low = get_float_array(&evaluated_args[1])?;
             let high = get_float_array(&evaluated_args[2])?;
-            let count = get_int_value(&evaluated_args[3], 0).unwrap_or(1) as f64;
+            // the bucket count is evaluated per row (NULL count -> NULL)
+            let counts = get_float_array(&evaluated_args[3])
+                .unwrap_or_else(|_| vec![None; operand.len()]);
 
             let result: Int64Array = operand
                 .iter()
                 .zip(low.iter())
                 .zip(high.iter())
-                .map(|((op, lo), hi)| match (op, lo, hi) {
-                    (Some(v), Some(l), Some(h)) => {
+                .zip(counts.iter())
+                .map(|(((op, lo), hi), cnt)| match (op, lo, hi, cnt) {
+                    (Some(v), Some(l), Some(h), Some(count)) => {
+                        let count = *count;
                         if v < l {
                             Some(0)
                         } else if v >= h {
